@@ -43,6 +43,42 @@ def _facade_kw():
 FACADE_KW = _facade_kw()
 EXP = ['MH', 'CWMH', 'PCN', 'MALA', 'ULA']
 LEG = ['MH', 'CWMH', 'pCN', 'MALA', 'ULA']
+EXP2 = ['NUTSflat', 'NUTSflat0', 'NUTS', 'LinearRTO', 'UGLA', 'Direct', 'Conjugate']
+LEG2 = ['NUTSflat', 'LinearRTO', 'UGLA']
+RTO_A = np.array([[2.0, 1.0], [-1.0, 3.0]])
+RTO_B = np.array([1.0, -0.5])
+
+
+class DetCGLS:
+    """Stand-in for cuqi.solver.CGLS inside the RTO/UGLA modules: a deterministic uninterpreted function of (right-hand side, start vector).
+    (What the solver returns is C16 / C06; here only determinism matters.)  On floats the real solver runs."""
+    real = None
+
+    def __init__(self, A, b, x0, maxit, tol=1e-6, shift=0):
+        self.args = (A, b, x0, maxit, tol, shift)
+
+    def solve(self):
+        c = core.ctx()
+        A, b, x0, maxit, tol, shift = self.args
+        if c.concrete:
+            return DetCGLS.real(A, b, x0, maxit, tol, shift).solve()
+        args = list(np.asarray(b, dtype=object).ravel()) + list(np.asarray(x0, dtype=object).ravel())
+        n = len(np.asarray(x0).ravel())
+        return np.array([c.uf_call('CGLS%d_%d' % (len(args), i), args) for i in range(n)], dtype=object), 1
+
+
+def install_detcgls():
+    import cuqi.experimental.mcmc._rto as e_rto
+    import cuqi.sampler._rto as l_rto
+    import cuqi.experimental.mcmc._laplace_approximation as e_la
+    import cuqi.sampler._laplace_approximation as l_la
+    mods = [e_rto, l_rto, e_la, l_la]
+    saved = [m.CGLS for m in mods]
+    if DetCGLS.real is None or DetCGLS.real is DetCGLS:
+        DetCGLS.real = saved[0]
+    for m in mods:
+        m.CGLS = DetCGLS
+    return mods, saved
 
 
 def configs(tier, seed=0):
@@ -57,6 +93,33 @@ def configs(tier, seed=0):
         if tier == 'thorough' and alg != 'CWMH':
             out.append({'key': 'exp/%s/N1+M1/warmup2' % alg, 'iface': 'exp', 'alg': alg, 'N': 1, 'M': 1, 'Nb': 2, 'max_paths': 6000, 'time_budget': 3000})
         out.append({'key': 'exp/%s/reinitialize' % alg, 'iface': 'exp-reinit', 'alg': alg, 'N': 1, 'M': 0, 'Nb': 1})
+    # the other samplers of the stateful interface: NUTS (flat target: only the direction coins branch; uninterpreted target in the thorough tier),
+    # LinearRTO / UGLA (inner solver replaced by a deterministic uninterpreted function of its inputs), Direct, Conjugate
+    for alg in EXP2:
+        if alg == 'NUTS' and tier == 'quick':
+            continue
+        tot = 3 if tier == 'quick' else 4
+        if alg == 'NUTS' or (alg == 'NUTSflat' and tier == 'quick'):
+            tot = 2
+        if alg == 'NUTSflat0':
+            tot = 1          # only the warm-up configuration below
+        for N in range(1, tot):
+            M = tot - N
+            out.append({'key': 'exp/%s/N%d+M%d/warmup0' % (alg, N, M), 'iface': 'exp', 'alg': alg, 'N': N, 'M': M, 'Nb': 0, 'max_paths': 6000, 'time_budget': 1500})
+        if alg in ('NUTSflat0', 'LinearRTO', 'Conjugate'):
+            out.append({'key': 'exp/%s/N1+M1/warmup2' % alg, 'iface': 'exp', 'alg': alg, 'N': 1, 'M': 1, 'Nb': 2, 'max_paths': 6000, 'time_budget': 1500})
+        out.append({'key': 'exp/%s/reinitialize' % alg, 'iface': 'exp-reinit', 'alg': alg, 'N': 1, 'M': 0, 'Nb': 1})
+    # both Gibbs samplers with real MH blocks on a joint of uninterpreted factors: N then M sweeps == N+M sweeps on one stream
+    for graph in (['pair'] if tier == 'quick' else ['pair', 'chain3', 'collider3']):
+        for N, M in ([(1, 1)] if tier == 'quick' else [(1, 1), (2, 1)]):
+            out.append({'key': 'exp/HybridGibbs/%s/N%d+M%d' % (graph, N, M), 'iface': 'gibbs', 'which': 'exp', 'graph': graph, 'N': N, 'M': M, 'max_paths': 6000, 'time_budget': 1500})
+            out.append({'key': 'legacy/Gibbs/%s/N%d+M%d' % (graph, N, M), 'iface': 'gibbs', 'which': 'legacy', 'graph': graph, 'N': N, 'M': M, 'max_paths': 6000, 'time_budget': 1500})
+            if (N, M) == (1, 1) and graph == 'pair':
+                # continuation after a first call WITH burn-in must start from the last recorded sample, not from a warm-up state
+                out.append({'key': 'legacy/Gibbs/%s/N1+M1/Nb1' % graph, 'iface': 'gibbs', 'which': 'legacy', 'graph': graph, 'N': 1, 'M': 1, 'Nb': 1, 'max_paths': 6000, 'time_budget': 1500})
+    for alg in LEG2:
+        for N, Nb in ([(2, 0), (2, 1)] if tier == 'quick' else [(2, 0), (3, 0), (2, 1), (1, 2)]):
+            out.append({'key': 'legacy/%s/sample/N%d,Nb%d' % (alg, N, Nb), 'iface': 'legacy', 'alg': alg, 'mode': 'sample', 'N': N, 'Nb': Nb, 'max_paths': 3000})
     for alg in LEG:
         pairs = [(2, 0), (2, 1), (1, 2)] if tier == 'quick' else [(2, 0), (3, 0), (2, 1), (1, 2), (2, 2)]
         if alg == 'CWMH':
@@ -74,26 +137,60 @@ def fk(cfg, what):
 
 
 def dim_of(alg):
-    return 2 if alg == 'CWMH' else 1
+    return 2 if alg in ('CWMH', 'LinearRTO', 'UGLA') else 1
+
+
+def linear_posterior(alg):
+    import cuqi
+    n = 2
+    model = cuqi.model.LinearModel(RTO_A)
+    if alg == 'UGLA':
+        prior = cuqi.distribution.LMRF(0.0, 0.5, geometry=n, bc_type='zero', name='x')
+    else:
+        prior = cuqi.distribution.Gaussian(mean=np.zeros(n), cov=1.0, name='x')
+    ydist = cuqi.distribution.Gaussian(mean=model(prior) if False else model, cov=0.25, geometry=2, name='y')
+    return cuqi.distribution.Posterior(ydist.to_likelihood(RTO_B), prior)
+
+
+def conjugate_posterior():
+    import cuqi
+    s_ = cuqi.distribution.Gamma(2.0, 3.0, name='s')
+    y = cuqi.distribution.Gaussian(np.zeros(2), prec=lambda s: s, name='y')
+    return cuqi.distribution.JointDistribution(y, s_)(y=np.array([0.5, -1.0]))
 
 
 def make_exp(c, alg, x0, log):
     import cuqi
     E = cuqi.experimental.mcmc
     d = dim_of(alg)
-    cb = lambda sample, idx: log.append((np.array(sample, dtype=object if not c.concrete else float).copy(), idx))
+    cb = lambda sample, idx: log.append((np.atleast_1d(np.array(sample, dtype=object if not c.concrete else float)).ravel().copy(), idx))
     if alg == 'PCN':
         prior = cuqi.distribution.Gaussian(mean=np.zeros(d), cov=1.0, name='x')
         target = mc.make_posterior(d, prior, 'L')
         return E.PCN(target, scale=0.5, initial_point=x0, callback=cb)
+    if alg in ('NUTS', 'NUTSflat', 'NUTSflat0'):
+        target = mc.make_target(d, 'T', flat=(alg != 'NUTS'))
+        return E.NUTS(target, initial_point=x0, max_depth=1 if alg == 'NUTSflat' else 0, step_size=0.5, callback=cb)
+    if alg == 'LinearRTO':
+        return E.LinearRTO(linear_posterior(alg), initial_point=x0, callback=cb)
+    if alg == 'UGLA':
+        return E.UGLA(linear_posterior(alg), initial_point=x0, beta=0.25, callback=cb)
+    if alg == 'Direct':
+        import cuqi as _c
+        return E.Direct(_c.distribution.Gaussian(np.zeros(d), 1.0, name='x'), initial_point=x0, callback=cb)
+    if alg == 'Conjugate':
+        return E.Conjugate(conjugate_posterior(), initial_point=x0, callback=cb)
     target = mc.make_target(d, 'T')
     cls = {'MH': E.MH, 'CWMH': E.CWMH, 'MALA': E.MALA, 'ULA': E.ULA}[alg]
     return cls(target, scale=0.5, initial_point=x0, callback=cb)
 
 
 def chain_of(s, c):
-    S = s.get_samples().samples
-    return np.asarray(S, dtype=object if not c.concrete else float)
+    S = np.asarray(s.get_samples().samples, dtype=object if not c.concrete else float)
+    if S.ndim == 1:
+        # Direct / Conjugate on a 1-dimensional target store 0-d points: the chain is a vector of length N (shape conventions are C13/C19)
+        S = S.reshape(1, -1)
+    return S
 
 
 def state_vec(s, c):
@@ -102,6 +199,9 @@ def state_vec(s, c):
     for k in sorted(st):
         v = st[k]
         if v is None:
+            continue
+        if isinstance(v, str):
+            out.append(float(sum(ord(ch) for ch in v)))     # e.g. NUTS._epsilon_bar == "unset"
             continue
         out.extend(list(np.asarray(v, dtype=object if not c.concrete else float).ravel()))
     return np.array(out, dtype=object if not c.concrete else float), sorted(k for k in st)
@@ -112,11 +212,18 @@ def run(cfg, c):
     c.rand_open_interval = True
     if 'uniform draws lie in the open interval (0,1) (u = 0 is decided in C02)' not in c.assumptions:
         c.assumptions.append('uniform draws lie in the open interval (0,1) (u = 0 is decided in C02)')
-    if cfg['iface'] == 'exp':
-        return run_exp(cfg, c)
-    if cfg['iface'] == 'exp-reinit':
-        return run_reinit(cfg, c)
-    return run_legacy(cfg, c)
+    mods, saved = install_detcgls()
+    try:
+        if cfg['iface'] == 'exp':
+            return run_exp(cfg, c)
+        if cfg['iface'] == 'exp-reinit':
+            return run_reinit(cfg, c)
+        if cfg['iface'] == 'gibbs':
+            return run_gibbs(cfg, c)
+        return run_legacy(cfg, c)
+    finally:
+        for m_, s_ in zip(mods, saved):
+            m_.CGLS = s_
 
 
 def run_exp(cfg, c):
@@ -171,6 +278,10 @@ def run_exp(cfg, c):
                     s1.sample(k)
                 else:
                     s1.initialize() if not s1._is_initialized else None
+                # constructing / initializing the fresh sampler may itself draw random numbers (Direct validates its target by sampling it):
+                # that happens outside the run, so the stream position of the interrupted run is restored afterwards
+                rp = getattr(c, '_replay_pos', None)
+                pos = rp if (rp is not None and rp < len(c.draws)) else len(c.draws)
                 s2 = make_exp(c, alg, x0, log2)
                 if via == 'state':
                     s2.initialize()
@@ -180,6 +291,7 @@ def run_exp(cfg, c):
                     s1.save_checkpoint(path)
                     s2.load_checkpoint(path)
                     os.remove(path)
+                c.rewind_stream(pos)
                 rest = N + M - k
                 if rest:
                     s2.sample(rest)
@@ -226,6 +338,12 @@ def make_legacy(c, alg, x0, log, flat=False):
         if flat:
             target.likelihood.logpdf_func = lambda xx: 0.0
         return L.pCN(target, scale=0.5, x0=x0, callback=cb)
+    if alg == 'NUTSflat':
+        return L.NUTS(mc.make_target(d, 'T', flat=True), x0=x0, max_depth=1, adapt_step_size=0.5, callback=cb)
+    if alg == 'LinearRTO':
+        return L.LinearRTO(linear_posterior(alg), x0=x0, callback=cb)
+    if alg == 'UGLA':
+        return L.UGLA(linear_posterior(alg), x0=x0, beta=0.25, callback=cb)
     target = mc.make_target(d, 'T', flat=flat)
     cls = {'MH': L.MH, 'CWMH': L.CWMH, 'MALA': L.MALA, 'ULA': L.ULA}[alg]
     return cls(target, scale=0.5, x0=x0, callback=cb)
@@ -263,3 +381,52 @@ def run_legacy(cfg, c):
     if ok and total > 1 and mode == 'sample':
         c.prove_close('callback received the chain states; stored entries not altered later', np.stack([sv for sv, _ in log], axis=1), full[:, 1:],
                       info=fk(cfg, 'callback-state'))
+
+
+def run_gibbs(cfg, c):
+    """Both Gibbs samplers with real MH blocks: N sweeps then M sweeps == N+M sweeps on one random stream; lengths; stored entries unaltered."""
+    import cuqi
+    from . import C09
+    dt = object if not c.concrete else float
+    N, M = cfg['N'], cfg['M']
+    init_syms = {}
+
+    def build():
+        J, names, ref = C09.build_joint(c, C09.GRAPHS[cfg['graph']])
+        order = J.get_parameter_names()
+        for n in order:
+            if n not in init_syms:
+                init_syms[n] = c.reals('init_%s' % n, 1)
+        if cfg['which'] == 'exp':
+            strategy = {n: cuqi.experimental.mcmc.MH(scale=0.5, initial_point=init_syms[n]) for n in order}
+            return cuqi.experimental.mcmc.HybridGibbs(J, strategy), order
+        class MH05(cuqi.sampler.MH):
+            def __init__(self, target, **kw):
+                super().__init__(target, scale=0.5, **kw)
+        G = cuqi.sampler.Gibbs(J, {n: MH05 for n in order})
+        return G, order
+
+    def chain(G, res, order):
+        if cfg['which'] == 'exp':
+            S = G.get_samples()
+            return np.concatenate([np.asarray(S[n].samples, dtype=dt) for n in order], axis=0)
+        return np.concatenate([np.asarray(res[n].samples, dtype=dt) for n in order], axis=0)
+
+    Nb = cfg.get('Nb', 0)
+    GB, order = build()
+    resB = GB.sample(N + M, Nb) if Nb else GB.sample(N + M)
+    B = chain(GB, resB, order)
+    c.prove('recorded length N+M', B.shape == (len(order), N + M), info=fk(cfg, 'length'))
+    c.rewind_stream(0)
+    GA, _ = build()
+    try:
+        r1 = GA.sample(N, Nb) if Nb else GA.sample(N)
+        first = chain(GA, r1, order).copy()
+        r2 = GA.sample(M)
+    except core.StreamDivergence as e:
+        c.prove('split run consumes the stream like the unsplit run', False, info=dict(fk(cfg, 'stream'), error=str(e)))
+        return
+    A = chain(GA, r2, order)
+    c.prove('split run: recorded length', A.shape == (len(order), N + M) and first.shape == (len(order), N), info=fk(cfg, 'split-length'))
+    c.prove_close('sample(N); sample(M) == sample(N+M)', A, B, info=fk(cfg, 'split'))
+    c.prove_close('entries stored by the first call are not altered by the second', A[:, :N], first, info=fk(cfg, 'unaltered'))
